@@ -55,6 +55,9 @@ type Ent struct {
 // Cnr is the model state of one container on one shard.
 type Cnr struct {
 	Removed bool
+	PartialRevives int // revivals that removed one of several tombstones of an address
+	NonPhyMarkOps int // garbage keys created or removed for ids that are not stored physical objects
+	Reputs  int // accepted puts to an address (or with a parent) hidden by a garbage mark
 	Has     bool // the shard has seen this container (something was stored or it was removed)
 	Stored  map[int]*Ent
 	Marks   map[int]int
@@ -80,7 +83,7 @@ func NewM1(u *Universe) *M1 {
 func (m *M1) Clone() *M1 {
 	n := &M1{U: m.U, Epoch: m.Epoch}
 	for _, c := range m.C {
-		nc := &Cnr{Removed: c.Removed, Has: c.Has, Stored: map[int]*Ent{}, Marks: map[int]int{}}
+		nc := &Cnr{Removed: c.Removed, Has: c.Has, Reputs: c.Reputs, PartialRevives: c.PartialRevives, NonPhyMarkOps: c.NonPhyMarkOps, Stored: map[int]*Ent{}, Marks: map[int]int{}}
 		for k, v := range c.Stored {
 			e := *v
 			nc.Stored[k] = &e
@@ -375,11 +378,17 @@ func (m *M1) JudgePut(s *Spec) (PutVerdict, string) {
 func (m *M1) ApplyPut(s *Spec) {
 	c := m.C[s.Cnr]
 	c.Has = true
-	if e := c.Stored[s.ID]; e != nil && e.Phy {
-		// A duplicate of an available object changes nothing.  A stored object that is hidden by
-		// a garbage mark is "not found", so the shard stores it anew; the mark stays.
-		if _, must := m.ownReasons(s.Cnr, s.ID); !must {
-			return
+	_, hidden := m.ownReasons(s.Cnr, s.ID)
+	if e := c.Stored[s.ID]; e != nil && e.Phy && !hidden {
+		return // a duplicate of an available object changes nothing
+	}
+	// An address hidden by a garbage mark is "not found", so the shard indexes the object
+	// (again); the mark stays.  The same holds for the parent header it carries.
+	if hidden || c.Marks[s.ID] != MarkNone {
+		c.Reputs++
+	} else if par := s.Parent; par >= 0 && c.Stored[par] != nil {
+		if _, must := m.ownReasons(s.Cnr, par); must {
+			c.Reputs++
 		}
 	}
 	// virtual parent chain
@@ -391,9 +400,10 @@ func (m *M1) ApplyPut(s *Spec) {
 	if s.Kind == KTomb {
 		// the tombstone marks its target and everything of the target's family for removal
 		for _, k := range append([]int{s.Target}, m.family(s.Cnr, s.Target, 0)...) {
-			if c.Marks[k] != MarkDefault {
-				c.Marks[k] = MarkDefault
+			if e := c.Stored[k]; c.Marks[k] == MarkNone && (e == nil || !e.Phy) {
+				c.NonPhyMarkOps++
 			}
+			c.Marks[k] = MarkDefault
 		}
 	}
 	c.Stored[s.ID] = &Ent{S: s, Phy: true}
@@ -413,6 +423,9 @@ func (m *M1) ApplyMark(cn int, ids []int, mark int) {
 	for _, k := range all {
 		switch {
 		case c.Marks[k] == MarkNone:
+			if e := c.Stored[k]; e == nil || !e.Phy {
+				c.NonPhyMarkOps++
+			}
 			c.Marks[k] = mark
 		case mark == MarkDefault:
 			c.Marks[k] = MarkDefault
@@ -438,6 +451,9 @@ func (m *M1) ApplyDelete(cn int, ids []int) []int {
 		e := c.Stored[id]
 		if e != nil && !e.Phy {
 			continue // a virtual entry disappears only with its last child
+		}
+		if e == nil && c.Marks[id] != MarkNone {
+			c.NonPhyMarkOps++
 		}
 		delete(c.Marks, id)
 		if e == nil {
@@ -465,6 +481,9 @@ func (m *M1) dropOrphanParent(cn, par int, gone *[]int) {
 		}
 	}
 	delete(c.Stored, par)
+	if c.Marks[par] != MarkNone && !pe.Phy {
+		c.NonPhyMarkOps++
+	}
 	delete(c.Marks, par)
 	*gone = append(*gone, par)
 	if !pe.Phy {
@@ -493,7 +512,13 @@ func (m *M1) ApplyDeleteContainer(cn int) {
 // reported as removed (tomb, -1 if none) disappears.
 func (m *M1) ApplyRevive(cn, id, tomb int) {
 	c := m.C[cn]
+	if e := c.Stored[id]; c.Marks[id] != MarkNone && (e == nil || !e.Phy) {
+		c.NonPhyMarkOps++
+	}
 	delete(c.Marks, id)
+	if tomb >= 0 && len(m.TombstonesOf(cn, id)) > 1 {
+		c.PartialRevives++
+	}
 	if tomb >= 0 {
 		if e := c.Stored[tomb]; e != nil {
 			delete(c.Stored, tomb)
@@ -525,7 +550,8 @@ func (m *M1) Recount(cn int) Counters {
 		}
 		switch e.S.Kind {
 		case KReg:
-			if e.S.Parent < 0 && !e.S.NoIDPa {
+			// root = a regular object that is not a part of anything (no split relations)
+			if e.S.Parent < 0 && !e.S.NoIDPa && e.S.First < 0 && e.S.Split < 0 {
 				r.Root++
 			}
 		case KTomb:
@@ -602,4 +628,18 @@ func (m *M1) Facts(cn, id int) string {
 	}
 	return fmt.Sprintf("kind=%s cnrRemoved=%d expired=%d tombstoned=%d mark=%d locks=%d deadLocks=%d%s", kind, b(c.Removed),
 		b(e != nil && m.expiredSpec(e.S)), b(m.Tombstoned(cn, id)), c.Marks[id], locks, dead, par)
+}
+
+// NonPhyMarks counts garbage marks (of any kind) on ids that are not stored physical objects.
+func (m *M1) NonPhyMarks(cn int) int {
+	n := 0
+	for id, mk := range m.C[cn].Marks {
+		if mk == MarkNone {
+			continue
+		}
+		if e := m.C[cn].Stored[id]; e == nil || !e.Phy {
+			n++
+		}
+	}
+	return n
 }
